@@ -149,6 +149,7 @@ pub fn reset() {
         l.tick_kinds.clear();
         l.in_unwind_ticks = 0;
     });
+    ZCOUNT.with(|c| c.set([0; 3]));
 }
 
 /// Arm the fuse: callbacks are counted from 0; callback number `at` panics (u32::MAX: count only).
@@ -440,14 +441,39 @@ pub struct Vx {
     cookie: u64,
     id: u32,
     pub v: u8,
+    /// build dimension `--cfg mc_wide` (the "wide" build of ./check): the value is 80 bytes, so a
+    /// (Kx, Vx) pair is 96 bytes - code that treats wide pairs specially (moves them differently,
+    /// drops them in place) is exercised by every ledger engine. Every word repeats the cookie.
+    #[cfg(mc_wide)]
+    pad: [u64; 8],
+}
+
+#[cfg(mc_wide)]
+fn pad_intact(cookie: u64, pad: &[u64; 8], what: &str) {
+    if cookie != DEAD && pad.iter().any(|w| *w != cookie) {
+        with(|l| {
+            l.viol.push(LViol {
+                class: LClass::GarbageUse,
+                msg: format!("{what} on a value whose trailing words were torn or shifted (cookie {cookie:#x}, words {pad:x?})"),
+            })
+        });
+    }
 }
 
 impl Vx {
     pub fn new(v: u8) -> Self {
         let (cookie, id) = alloc(false, v, 0, NOID);
-        Vx { cookie, id, v }
+        Vx {
+            cookie,
+            id,
+            v,
+            #[cfg(mc_wide)]
+            pad: [cookie; 8],
+        }
     }
     pub fn desc(&self) -> VD {
+        #[cfg(mc_wide)]
+        pad_intact(self.cookie, &self.pad, "inspect");
         touch(false, self.cookie, self.id, self.v, 0, "inspect");
         VD {
             id: self.id,
@@ -481,15 +507,21 @@ impl Clone for Vx {
             with(|l| l.objs[self.id as usize].clones += 1);
         }
         let (cookie, id) = alloc(false, self.v, 0, self.id);
+        #[cfg(mc_wide)]
+        pad_intact(self.cookie, &self.pad, "clone");
         Vx {
             cookie,
             id,
             v: self.v,
+            #[cfg(mc_wide)]
+            pad: [cookie; 8],
         }
     }
 }
 impl Drop for Vx {
     fn drop(&mut self) {
+        #[cfg(mc_wide)]
+        pad_intact(self.cookie, &self.pad, "drop");
         destroy(false, self.cookie, self.id, self.v, 0);
         unsafe { std::ptr::write_volatile(&mut self.cookie, DEAD) };
         tick(Cb::Drop);
@@ -553,6 +585,71 @@ pub trait ValT: PartialEq + Clone + Default + fmt::Debug + Sized + 'static {
     fn vd(&self) -> VD;
     /// change the value in place (object identity is kept)
     fn set(&mut self, v: u8);
+    /// For value types that have no bytes to carry a ledger identity (counted zero-sized types):
+    /// (made, cloned, destroyed) since the last `reset()`. Balance (made + cloned == destroyed once
+    /// everything is gone) and exact clone counts are judged from these.
+    fn counters() -> Option<[u64; 3]> {
+        None
+    }
+}
+
+thread_local! {
+    static ZCOUNT: std::cell::Cell<[u64; 3]> = const { std::cell::Cell::new([0; 3]) };
+}
+fn zbump(i: usize) {
+    ZCOUNT.with(|c| {
+        let mut x = c.get();
+        x[i] += 1;
+        c.set(x);
+    });
+}
+/// A zero-sized value WITH drop glue and an observable Clone: there are no bytes to copy, move or
+/// tear, but every creation, clone and destruction is counted - "a zero-sized value needs no work"
+/// is wrong for it.
+#[derive(PartialEq, Eq)]
+pub struct Zc(());
+impl Zc {
+    pub fn new() -> Self {
+        zbump(0);
+        Zc(())
+    }
+}
+impl Default for Zc {
+    fn default() -> Self {
+        Zc::new()
+    }
+}
+impl Clone for Zc {
+    fn clone(&self) -> Self {
+        zbump(1);
+        Zc(())
+    }
+}
+impl Drop for Zc {
+    fn drop(&mut self) {
+        zbump(2);
+    }
+}
+impl fmt::Debug for Zc {
+    fn fmt(&self, f: &mut fmt::Formatter<'_>) -> fmt::Result {
+        f.write_str("Zc")
+    }
+}
+impl ValT for Zc {
+    const NAME: &'static str = "Zc(counted ZST)";
+    const MAXV: u8 = 1;
+    const LEDGER: bool = false;
+    const DEFAULT_CODE: u8 = 0;
+    fn mk(_v: u8) -> Self {
+        Zc::new()
+    }
+    fn vd(&self) -> VD {
+        VD { id: NOID, v: 0 }
+    }
+    fn set(&mut self, _v: u8) {}
+    fn counters() -> Option<[u64; 3]> {
+        Some(ZCOUNT.with(|c| c.get()))
+    }
 }
 
 impl KeyT for Kx {
@@ -657,18 +754,23 @@ impl KeyT for String {
     const MAXK: u8 = 8;
     const LEDGER: bool = false;
     const DISTINCT_Q: bool = true;
+    // key code 0 is the EMPTY string: its borrowed form `&str` is a zero-sized value (size_of_val == 0)
     fn mk(k: u8, _tag: u8) -> Self {
-        STRS[k as usize].to_string()
+        if k == 0 {
+            String::new()
+        } else {
+            STRS[k as usize].to_string()
+        }
     }
     fn kd(&self) -> KD {
         KD {
             id: NOID,
-            k: str_code(self),
+            k: if self.is_empty() { 0 } else { str_code(self) },
             tag: 0,
         }
     }
     fn with_q<R>(k: u8, f: impl FnOnce(&str) -> R) -> R {
-        f(STRS[k as usize])
+        f(if k == 0 { "" } else { STRS[k as usize] })
     }
     fn alias_probe<R>(&self, f: impl FnOnce(&str) -> R) -> Option<R> {
         if self.len() > 1 {
@@ -695,6 +797,39 @@ impl ValT for String {
     }
     fn set(&mut self, v: u8) {
         *self = STRS[v as usize].to_string();
+    }
+}
+
+/// Keys whose equality is coarser than their bytes: `PathBuf` compares component-wise, so "d/k3",
+/// "d//k3" and "d/./k3" are EQUAL keys of different lengths. Tag 0 / tag 1 are the first two
+/// spellings (distinguishable equal key objects, without a ledger); lookups through the borrowed
+/// form `&Path` use the third, so a stored key and the probe that finds it never have the same size.
+impl KeyT for std::path::PathBuf {
+    type Q = std::path::Path;
+    const NAME: &'static str = "PathBuf";
+    const TAGS: u8 = 2;
+    const MAXK: u8 = 8;
+    const MAXCODE: u8 = 32;
+    const LEDGER: bool = false;
+    const DISTINCT_Q: bool = true;
+    fn mk(k: u8, tag: u8) -> Self {
+        std::path::PathBuf::from(if tag == 0 { format!("d/k{k}") } else { format!("d//k{k}") })
+    }
+    fn kd(&self) -> KD {
+        let s = self.to_str().unwrap_or("");
+        let code = s.rsplit('k').next().and_then(|d| d.parse::<u8>().ok()).filter(|_| s.starts_with("d/")).unwrap_or(0xFF);
+        KD {
+            id: NOID,
+            k: code,
+            tag: u8::from(s.contains("//")),
+        }
+    }
+    fn with_q<R>(k: u8, f: impl FnOnce(&std::path::Path) -> R) -> R {
+        f(std::path::Path::new(&format!("d/./k{k}")))
+    }
+    fn alias_probe<R>(&self, f: impl FnOnce(&std::path::Path) -> R) -> Option<R> {
+        // "d": starts at the stored key's own buffer, is shorter, and equals no key
+        self.parent().map(f)
     }
 }
 
